@@ -207,10 +207,10 @@ def run(ctx):
                                                     "DoDecSet", "DoDecGetNull", "DoDecReset"])
             cfg = "EncCtl_mc_quick.cfg" if tier == "quick" else "EncCtl_mc_thorough.cfg"
             mc_res["mc"] = ctx.mc("EncCtl_mc", cfg, what="EncCtl design theorems " + cfg, deadlock=True,
-                                  workers=4 if tier == "quick" else 8, timeout=600 if tier == "quick" else 3000, heap="6g")
+                                  workers=4 if tier == "quick" else 8, timeout=600 if tier == "quick" else 3000, heap="3g")
             if tier == "thorough":
                 mc_res["dense"] = ctx.mc("EncCtl_mc", "EncCtl_mc_dense2.cfg", what="EncCtl design theorems, dense grid depth 2",
-                                         deadlock=True, workers=8, timeout=3000, heap="6g")
+                                         deadlock=True, workers=8, timeout=3000, heap="3g")
         except BaseException as e:      # re-raised in the main thread
             mc_res["err"] = e
     th = threading.Thread(target=do_mc)
@@ -243,7 +243,7 @@ def run(ctx):
     if rc != 0:
         raise vf.Infra("gen-create failed: " + err[-500:])
     scripts.append(("create", p))
-    nrand, nexec, steps = (8, 90, 30) if tier == "quick" else (16, 1000, 40)
+    nrand, nexec, steps = (8, 90, 30) if tier == "quick" else (16, 600, 40)
     for i in range(nrand):
         p = ctx.path("rand_%02d.txt" % i)
         rc, err = vf.run_hx(exe, ["gen-random", s + 1000 * i, nexec, steps], p)
@@ -271,7 +271,7 @@ def run(ctx):
         if rc != 0:
             return res
         ok, _, r = vf.validate_seq(ctx, "EncCtlTrace", "EncCtlTrace.cfg", out, "C11 " + os.path.basename(script),
-                                   timeout=2400, heap="3g")
+                                   timeout=2400, heap="1500m")
         res["rej"], res["drift"], res["counts"] = parse_prints(r.prints)
         if r.violation and not res["rej"]:
             raise vf.Infra("EncCtlTrace could not consume %s: %s" % (out, r.violation))
@@ -281,22 +281,8 @@ def run(ctx):
             res["n"], res["nx"] = scan_trace(ctx, out, stats)
         return res
     vf.log("[C11] %d scripts -> %d jobs, t+%.0fs" % (len(scripts), len(jobs), time.time() - ctx.t0))
-    results = vf.parallel(one, jobs, nproc=10 if tier == "quick" else 14)
+    results = vf.parallel(one, jobs, nproc=10 if tier == "quick" else 12)
     vf.log("[C11] replay+validation done, t+%.0fs" % (time.time() - ctx.t0))
-
-    th.join()
-    if "err" in mc_res:
-        raise mc_res["err"]
-    for k in ("cov", "mc", "dense"):
-        if k not in mc_res:
-            continue
-        r = mc_res[k]
-        if r.violation:
-            raise vf.Infra("EncCtl model theorem %s violated (defect of the model, not of the code):\n%s" % (r.violation, r.state_dump[:1500]))
-    ctx.exhaustive = True
-    ctx.notes["exhaustive_scope"] = ("model side: every request sequence up to the depth of the mc configuration over the boundary grid; "
-                                     "implementation side: the depth-1 grid from two base states for all (Fs, channels, application) "
-                                     "exhaustively, deeper histories sampled")
 
     # 4. verdicts
     seen_drift = set()
@@ -324,6 +310,20 @@ def run(ctx):
     for res in results[:3]:
         if res["rc"] == 0:
             ctx.sample({"driver": res["job"][0], "event": vf.file_line(res["out"], 2)[:500]})
+    th.join()
+    if "err" in mc_res:
+        raise mc_res["err"]
+    for k in ("cov", "mc", "dense"):
+        if k not in mc_res:
+            continue
+        r = mc_res[k]
+        if r.violation:
+            raise vf.Infra("EncCtl model theorem %s violated (defect of the model, not of the code):\n%s" % (r.violation, r.state_dump[:1500]))
+    ctx.exhaustive = True
+    ctx.notes["exhaustive_scope"] = ("model side: every request sequence up to the depth of the mc configuration over the boundary grid; "
+                                     "implementation side: the depth-1 grid from two base states for all (Fs, channels, application) "
+                                     "exhaustively, deeper histories sampled")
+
     ctx.notes["obligation_antecedents"] = dict(zip(CNT_NAMES, counts_sum))
     ctx.notes["events"] = stats
     # vacuity guard: every obligation must have been exercised with a true antecedent
